@@ -15,7 +15,7 @@
 (* The clause names say which property a failure belongs to (c01_ / c02_ / *)
 (* c10_); each check reports only its own clauses.                         *)
 (***************************************************************************)
-EXTENDS Grid, Json, IOUtils
+EXTENDS Grid, MeridianArc, Json, IOUtils
 
 Data   == JsonDeserialize(IOEnv.TRACE_FILE)
 Traces == Data.traces
@@ -115,7 +115,25 @@ STAChecks(o) ==
 ZoneChecks(o) ==
   << <<"c01_zone_rule", ZoneRule100(o.zw, o.cm1, o.zone, o.lon100)>> >>
 
+\* on the central meridian at a Pythagorean latitude: northing = false northing + k0 * meridian distance
+\* (MeridianArc, exact), easting = false easting; the inverse returns the latitude atan(p/q)
+CMChecks(o) ==
+  LET prj == Prj(o.prj)
+      n == ThirdFlat(FromJ(o.ell.invf), FromJ(o.n0))
+  IN IF ~NOK(FromJ(o.ell.invf), n) THEN << <<"oracle_start_value", FALSE>> >>
+     ELSE \* (arguments are evaluated once)
+     LET F(m, latd) ==
+          << <<"c01_cm_northing", Within(N(o), Add(FNeff(prj, o.fwd.hemi), Mul(prj.k0, m)), Mm02)>>,
+             <<"c01_cm_easting", Eq(E(o), prj.fe)>>,
+             <<"c01_hemisphere", o.fwd.hemi = (IF o.tri[1] < 0 THEN "South" ELSE "North")>>,
+             <<"c02_cm_inverse_lat", o.inv.exc # "" \/ Within(FromJ(o.inv.lat), latd, Dec(2500, 3))>>,
+             <<"c02_cm_inverse_lon", o.inv.exc # "" \/ Eq(FromJ(o.inv.lon), FromInt(CMdeg(prj, o.fwd.zone)))>>,
+             <<"c10_psf_on_cm", Within(FromJ(o.fwd.psf), prj.k0, Half8)>>,
+             <<"c10_conv_on_axes", Within(FromJ(o.fwd.conv), Zero, Deg1e9)>> >>
+     IN F(Meridian(FromJ(o.ell.a), n, o.tri), LatDeg(o.tri))
+
 Checks(ev) == CASE ev.k = "P" -> PChecks(ev.o)
+                [] ev.k = "CM" -> CMChecks(ev.o)
                 [] ev.k = "PAIR" -> PairChecks(ev.rel, ev.a, ev.b)
                 [] ev.k = "IRT" -> IRTChecks(ev.o)
                 [] ev.k = "STA" -> STAChecks(ev.o)
